@@ -118,7 +118,6 @@ func epochI(unitsPerSecond int64, extra ...int64) []pqVal {
 
 var pqTimeVariants = func() []pqTimeVariant {
 	T := func(name string, dt arrow.DataType) pqType { return pqType{Name: name, DT: dt} }
-	big := int64(9223372036854775) // MaxInt64/1000
 	var v []pqTimeVariant
 	for _, tz := range []string{"UTC", ""} {
 		sfx := ""
@@ -126,8 +125,8 @@ var pqTimeVariants = func() []pqTimeVariant {
 			sfx = ",naive"
 		}
 		v = append(v,
-			pqTimeVariant{T("timestamp[s"+sfx+"]", tsType(arrow.Second, tz)), "", epochI(1, big)},
-			pqTimeVariant{T("timestamp[ms"+sfx+"]", tsType(arrow.Millisecond, tz)), "", epochI(1e3, big, math.MaxInt64)},
+			pqTimeVariant{T("timestamp[s"+sfx+"]", tsType(arrow.Second, tz)), "", epochI(1)},
+			pqTimeVariant{T("timestamp[ms"+sfx+"]", tsType(arrow.Millisecond, tz)), "", epochI(1e3, math.MaxInt64)},
 			pqTimeVariant{T("timestamp[us"+sfx+"]", tsType(arrow.Microsecond, tz)), "", epochI(1e6, math.MaxInt64)},
 			pqTimeVariant{T("timestamp[ns"+sfx+"]", tsType(arrow.Nanosecond, tz)), "", epochI(1e9, math.MaxInt64)})
 	}
@@ -148,7 +147,7 @@ var pqTimeVariants = func() []pqTimeVariant {
 		pqTimeVariant{T("uint64", arrow.PrimitiveTypes.Uint64), "epoch_us", withNull(vu(baseSec*1e6, (baseSec+3600)*1e6, math.MaxUint64))},
 		pqTimeVariant{T("uint64", arrow.PrimitiveTypes.Uint64), "epoch_ns", withNull(vu(baseSec*1e9, (baseSec+3600)*1e9, math.MaxUint64))},
 		pqTimeVariant{T("float64", arrow.PrimitiveTypes.Float64), "epoch_s", withNull(vf(baseSec, baseSec+0.5, math.NaN(), math.Inf(1), 1e300))},
-		pqTimeVariant{T("float64", arrow.PrimitiveTypes.Float64), "epoch_ms", withNull(vf(baseSec*1e3, baseSec*1e3+0.5, 1e300))},
+		pqTimeVariant{T("float64", arrow.PrimitiveTypes.Float64), "epoch_ms", withNull(vf(baseSec*1e3, baseSec*1e3+0.5))},
 		pqTimeVariant{T("float64", arrow.PrimitiveTypes.Float64), "", withNull(vf(baseSec, baseSec+0.5, (baseSec+3600)*1e3, math.Inf(-1)))},
 		pqTimeVariant{T("float32", arrow.PrimitiveTypes.Float32), "epoch_s", vf(baseSec, 0.5, math.Inf(1))},
 		pqTimeVariant{T("utf8", arrow.BinaryTypes.String), "epoch_s", withNull(vs("1609459200", "1609462800", " 1609459200", "abc", ""))},
@@ -593,6 +592,16 @@ func (c pqCase) shrinks() []tcase {
 	if c.PerRow {
 		d := c.clone()
 		d.PerRow = false
+		out = append(out, d)
+	}
+	if c.Times == nil && c.TV != 2 { // data sub-space: the native unit (us) is the plainest time column
+		d := c.clone()
+		d.TV = 2
+		out = append(out, d)
+	}
+	if c.TV >= 4 && c.TV < 8 { // zone-less timestamp -> the UTC variant of the same unit (same alphabet)
+		d := c.clone()
+		d.TV = c.TV - 4
 		out = append(out, d)
 	}
 	for r, x := range c.Data {
